@@ -299,10 +299,11 @@ def plan(tier):
     singles = Prod(Const(FIELDS), Const(HOSTILE), Const(INDENTS))
     out = [dict(kind="space", name="single-field", space=singles, fn=fn_single, execs=3,
                 note=f"{len(FIELDS)} fields x {len(HOSTILE)} hostile strings x indent {INDENTS}")]
-    nmax = 2 if tier == "quick" else 3
+    nmax = 3
     docs = []
     for n in range(1, nmax + 1):
-        docs.append(Prod(Seq(Const(SURROUND if (tier != "quick" or n < 2) else SURROUND[:5]), n + 1, n + 1),
+        sur = SURROUND if (tier != "quick" or n < 2) else (SURROUND[:5] if n == 2 else SURROUND[2:5])
+        docs.append(Prod(Seq(Const(sur), n + 1, n + 1),
                          Seq(Const(list(range(len(DOC_DEPS)))), n, n),
                          Const([None, "mixed"] if n > 1 else INDENTS)))
     from ..space import Alt
